@@ -93,6 +93,9 @@ type Sim struct {
 	// OnDeliver is called after each delivery with the destination's
 	// registries installed.
 	OnDeliver func(d *Delivery)
+	// OnFresh, if set, is called right after decoding, before anything else
+	// (re-encoding included) has touched the decoded value.
+	OnFresh func(d *Delivery)
 	// Mutate, if set, may rewrite the bytes of a message at send time (fault injection).
 	Mutate func(m *Msg) []byte
 }
@@ -172,6 +175,9 @@ func (s *Sim) deliver(m *Msg) {
 	sum := sha256.Sum256(m.Data)
 	s.Logf("deliver t=%d seq=%d flow=%d hop=%d dst=%d dup=%v len=%d sha=%x panic=%q",
 		m.At, m.Seq, m.Flow, m.Hop, m.Dst, m.Dup, len(m.Data), sum[:8], d.Panic)
+	if d.Err != nil && s.OnFresh != nil {
+		s.OnFresh(d)
+	}
 	if d.Err != nil {
 		d.ReData, d.RePanic = obs.Encode(d.Err)
 	}
